@@ -259,3 +259,40 @@ Proof.
   - discriminate.
   - apply parse_not_lookalike. now apply negb_true_iff.
 Qed.
+
+(* ---- the documented stage table; helpers for the finite well-formedness checks of the tables ------------- *)
+Definition documented_stages : list stage :=
+  [ (FIncludeSystem, System,      RSystemFile);
+    (FIncludeUser,   Global,      RUserFile);
+    (FProjectPath,   Project,     RProjectPath);
+    (FLocalPath,     Local,       RLocalPath);
+    (FIncludeEnv,    Environment, REnvMap);
+    (FCliConfig,     CommandLine, RCliVector) ].
+
+Definition all_algs : list alg := [AsIs; Blake3; Blake2s; SHA2_256; SHA3_256].
+Fixpoint distinct_strs (l : list str) : bool :=
+  match l with [] => true | x :: r => negb (existsb (str_eqb x) r) && distinct_strs r end.
+Definition opt_strs (l : list (option str)) : list str :=
+  flat_map (fun o => match o with Some x => [x] | None => [] end) l.
+
+(* the positional form of the core theorem, for any order table *)
+Lemma effective_highest_positional order w p d c k v s :
+  w_default w = Some d -> build order w p = Built c ->
+  (kget c k = Some (v, s) <->
+   (exists l1 t l2, order = l1 ++ t :: l2 /\ snd (fst t) = s /\ defined_by w p t k = Some v /\
+                    Forall (fun t' => defined_by w p t' k = None) l2)
+   \/ (Forall (fun t => defined_by w p t k = None) order /\ s = Default /\ kget d k = Some v)).
+Proof.
+  intros Hd Hb. rewrite (effective_highest_lemma order w p d c k Hd Hb). apply effective_spec.
+Qed.
+
+(* the cache prefix of `track` is the prefix of the algorithm named by the EFFECTIVE value *)
+Lemma track_uses_effective_lemma order tbl akey w p d c name s a pre :
+  w_default w = Some d -> build order w p = Built c ->
+  effective order w p d akey = Some (VStr name, s) ->
+  alg_of_name tbl name = Some a -> prefix_of tbl a = Some pre ->
+  track_prefix tbl akey c = Some pre.
+Proof.
+  intros Hd Hb He Ha Hp. apply (track_prefix_spec tbl akey c name s a pre); [|exact Ha|exact Hp].
+  now rewrite (effective_highest_lemma order w p d c akey Hd Hb).
+Qed.
